@@ -170,7 +170,7 @@ def error_sites(f, enum_suffix):
     return out
 
 
-def rule_table(fx, f, enum_suffix):
+def rule_table(fx, f, enum_suffix, _depth=0):
     """variant -> list of frozenset(literals) (one per site)"""
     og = Origins(f, fx)
     oks = ok_blocks(f)
@@ -187,4 +187,21 @@ def rule_table(fx, f, enum_suffix):
         for g in guards_of(f, og, bi):
             lits.update(canon_guard(fx, f, og, g))
         table.setdefault(variant, []).append((frozenset(lits - common), bi))
+    # a rule moved into a new private helper (called with `?`) is still a rule of this function:
+    # its rejections count as rejections here, under the guards of the call site as well
+    if _depth < 2:
+        from symx import KNOWN_PRIVATE
+        for bi, t in f.calls():
+            g = fx.fns.get(t.target_fn or '')
+            if g is None or g.nq == f.nq or g.nq in KNOWN_PRIVATE or not str(g.d.get('vis', '')).startswith('Restricted'):
+                continue
+            if 'Result' not in (g.local_ty(0) or ''):
+                continue
+            sub, _c = rule_table(fx, g, enum_suffix, _depth + 1)
+            here = set()
+            for gd in guards_of(f, og, bi):
+                here.update(canon_guard(fx, f, og, gd))
+            for variant, sites in sub.items():
+                for lits, _sb in sites:
+                    table.setdefault(variant, []).append((frozenset((set(lits) | here) - common), bi))
     return table, common
